@@ -106,6 +106,43 @@ def render(sc, vtool, log, extra=None):
     return "\n".join(L) + "\n"
 
 
+def session_quiet(sid, timeout=60.0):
+    """wait until no live (non-zombie) process of session `sid` is left; -> True if quiet"""
+    t0 = time.time()
+    while time.time() - t0 < timeout:
+        alive = False
+        for pid in os.listdir("/proc"):
+            if not pid.isdigit():
+                continue
+            try:
+                with open("/proc/%s/stat" % pid) as f:
+                    rest = f.read().rsplit(")", 1)[1].split()
+                # rest[0]=state rest[1]=ppid rest[2]=pgrp rest[3]=session
+                if int(rest[3]) == sid and rest[0] not in ("Z", "X"):
+                    alive = True
+                    break
+            except (OSError, IndexError, ValueError):
+                continue
+        if not alive:
+            return True
+        time.sleep(0.01)
+    return False
+
+
+def session_kill(sid):
+    """SIGKILL every live process of session `sid` (each command has a process group of its own)"""
+    for pid in os.listdir("/proc"):
+        if not pid.isdigit():
+            continue
+        try:
+            with open("/proc/%s/stat" % pid) as f:
+                rest = f.read().rsplit(")", 1)[1].split()
+            if int(rest[3]) == sid and rest[0] not in ("Z", "X"):
+                os.kill(int(pid), signal.SIGKILL)
+        except (OSError, IndexError, ValueError):
+            continue
+
+
 class Tree:
     """A scratch build directory with real files."""
 
@@ -174,13 +211,29 @@ class Tree:
             pass
 
     # ---- running ninja
-    def run(self, args=(), env=None, timeout=WATCHDOG, input=None):
+    def run(self, args=(), env=None, timeout=WATCHDOG, input=None, settle=False):
+        """settle: ninja runs as the leader of a session of its own and, after it is gone, we wait until nothing is left in
+        that session - commands a dying ninja had just spawned may not even have started executing yet"""
         e = build.san_env()
         e["TERM"] = "dumb"
         e.pop("MAKEFLAGS", None)
         e.pop("NINJA_STATUS", None)
         if env:
             e.update(env)
+        if settle:
+            p = subprocess.Popen([self.ninja] + list(args), cwd=self.d, env=e, stdout=subprocess.PIPE, stderr=subprocess.PIPE,
+                                 stdin=subprocess.DEVNULL, start_new_session=True)
+            try:
+                so, se = p.communicate(timeout=timeout)
+            except subprocess.TimeoutExpired:
+                try:
+                    os.killpg(p.pid, signal.SIGKILL)
+                except OSError:
+                    pass
+                so, se = p.communicate()
+                return None, so, se
+            session_quiet(p.pid)
+            return p.returncode, so, se
         try:
             p = subprocess.run([self.ninja] + list(args), cwd=self.d, env=e, stdout=subprocess.PIPE, stderr=subprocess.PIPE,
                                timeout=timeout, input=input)
